@@ -259,6 +259,35 @@ func execReq(payload []byte) []string {
 	return []string{"err:other:" + strings.ReplaceAll(err.Error(), " ", "_")}
 }
 
+// env is built once per harness process and reused by every case (the registry is flushed between
+// cases): one miniredis, one logical process, one loopback listener.  A fresh set per case would
+// leave tens of thousands of sockets in TIME_WAIT and exhaust the ephemeral port range.
+type env struct {
+	w  *world.World
+	p  *world.Proc
+	ln *net.TCPListener
+}
+
+var theEnv *env
+
+func getEnv() (e *env, err error) {
+	if theEnv != nil {
+		return theEnv, nil
+	}
+	if txt, ok := core.Guard(func() {
+		w := world.New(world.DefaultOptions())
+		p := w.NewProc()
+		var ln *net.TCPListener
+		ln, err = net.ListenTCP("tcp4", &net.TCPAddr{IP: net.IPv4(127, 0, 0, 1), Port: 0})
+		if err == nil {
+			theEnv = &env{w: w, p: p, ln: ln}
+		}
+	}); !ok {
+		return nil, errors.New(txt)
+	}
+	return theEnv, err
+}
+
 // execReply plants the records through the real servers repository, opens a loopback TCP
 // connection pair, hands the accepted side to the real browser handler and returns what the
 // client side receives.
@@ -267,9 +296,12 @@ func execReply(clipHint string, payload []byte, serversTok string) []string {
 	if err != nil {
 		return []string{"bad-servers:" + strings.ReplaceAll(err.Error(), " ", "_")}
 	}
-	w := world.New(world.DefaultOptions())
-	defer w.Close()
-	p := w.NewProc()
+	e, err := getEnv()
+	if err != nil {
+		return []string{"env-error:" + strings.ReplaceAll(err.Error(), " ", "_")}
+	}
+	w, p, ln := e.w, e.p, e.ln
+	w.MR.FlushAll()
 	ctx := context.Background()
 	now := w.Clock.Now()
 	var order []addr.Addr
@@ -297,11 +329,6 @@ func execReply(clipHint string, payload []byte, serversTok string) []string {
 		stored = append(stored, fromServer(s))
 	}
 
-	ln, err := net.ListenTCP("tcp4", &net.TCPAddr{IP: net.IPv4(127, 0, 0, 1), Port: 0})
-	if err != nil {
-		return []string{"listen-error"}
-	}
-	defer ln.Close()
 	// the client binds to the hinted loopback address (any 127.x.y.z is local on Linux); fall back to the default
 	var client *net.TCPConn
 	if hint := net.ParseIP(clipHint).To4(); hint != nil && hint[0] == 127 {
@@ -326,8 +353,13 @@ func execReply(clipHint string, payload []byte, serversTok string) []string {
 	if _, err := client.Write(payload); err != nil {
 		return []string{"write-error"}
 	}
-	// half-close: an empty payload then reads as EOF in the handler instead of blocking it
-	_ = client.CloseWrite()
+	// an empty payload cannot be written: half-close so that the handler reads EOF instead of blocking.
+	// Otherwise the handler closes first; the client then resets on close (linger 0), so that neither
+	// side leaves a socket in TIME_WAIT however many cases a shard runs.
+	if len(payload) == 0 {
+		_ = client.CloseWrite()
+	}
+	_ = client.SetLinger(0)
 	done := make(chan string, 1)
 	go func() {
 		txt, ok := core.Guard(func() { p.Browser.Handle(ctx, accepted) })
@@ -651,9 +683,9 @@ func clipHint(rng *rand.Rand) string {
 }
 
 func gen(rng *rand.Rand, tier core.Tier, emit core.Emit) {
-	nReq, nReply, nRaw, maxN := 1500, 260, 60, 8
+	nReq, nReply, nRaw, maxN := 4000, 1500, 300, 10
 	if tier == core.Thorough {
-		nReq, nReply, nRaw, maxN = 20000, 2200, 400, 40
+		nReq, nReply, nRaw, maxN = 60000, 2000, 400, 40
 	}
 	for i := 0; i < nReq; i++ {
 		q := randReqParts(rng, false)
